@@ -447,4 +447,10 @@ Proof.
   rewrite vrepr_vmodel by exact Hwf. apply read_back; [exact NF|apply vmodel_ok; exact Hwf].
 Qed.
 
+Theorem value_printer_is_model_printer_ : forall v, wfv v -> vrepr W v = mrepr W (vmodel v) /\ ok W (vmodel v).
+Proof. intros v H. split; [apply vrepr_vmodel|apply vmodel_ok]; exact H. Qed.
+
 End VP.
+
+Definition value_printer_is_model_printer W key_eq (NF : num_facts W) (NN : names_facts W) :=
+  value_printer_is_model_printer_ W key_eq NN.
